@@ -101,13 +101,17 @@ graph, `uniqueIds` and `covers` for every merged kernel) evaluated on the model'
 correspondence check has just compared with the real ones. Since the deepening round only `kwf` of the
 kernels is a hypothesis of `C20_history`; `wf` / `covers` of the merged graph are theorems (`reachable_inv`)
 and are kept here as a cross-check of the model. -/
-def stepJ (A : PE) (ks : List PE) (merged : List Nat) : Json :=
+def stepJ (A : PE) (ks : List PE) (merged : List Nat) (mergedOnly : Bool := false) : Json :=
   let hyp := A.wf && swTargetsOk A && (merged.filterMap (ks[·]?)).all (fun k => k.kwf && covers A k)
   let self := match decode A A with
     | .error e => raisedJ e
     | .ok sw => Json.mkObj [("sw", jList jNat sw)]
+  -- `mergedOnly` (large elements): only the kernels merged so far are decoded (the search is exponential and an
+  -- unmerged kernel exhausts it)
+  let decs := (List.range ks.length).zip ks |>.map fun (i, k) =>
+    if mergedOnly && !merged.contains i then Json.null else decJ A k
   Json.mkObj [("pe", peJ A), ("ssa_ok", Json.bool A.ssaOk), ("hyp_ok", Json.bool hyp),
-    ("true", jNat A.trueSwitches), ("dec", jList (decJ A) ks), ("self", self)]
+    ("true", jNat A.trueSwitches), ("dec", Json.arr decs.toArray), ("self", self)]
 
 /-- the kernels of one group merged into one graph (the first one is the base) -/
 def groupGraph (ks : List PE) (idx : List Nat) : Except Err PE :=
@@ -115,13 +119,13 @@ def groupGraph (ks : List PE) (idx : List Nat) : Except Err PE :=
   | [] => .error .malformed
   | k :: r => mergeAll k r
 
-def steps (ks : List PE) : PE → List (List Nat) → List Nat → List Json
-  | A, [], m => [stepJ A ks m]
-  | A, g :: r, m => stepJ A ks m :: (match groupGraph ks g with
+def steps (ks : List PE) (mo : Bool) : PE → List (List Nat) → List Nat → List Json
+  | A, [], m => [stepJ A ks m mo]
+  | A, g :: r, m => stepJ A ks m mo :: (match groupGraph ks g with
     | .error e => [raisedJ e]
     | .ok G => match combine A G with
       | .error e => [raisedJ e]
-      | .ok A' => steps ks A' r (m ++ g))
+      | .ok A' => steps ks mo A' r (m ++ g))
 
 /-- args: {"bodies": [body], "groups"?: [[index]]} -> {"enc": [pe | raised], "kterm": [term|null],
 "steps": [step | raised]}. A group of several kernels is first merged into a graph of its own, which is then
@@ -131,6 +135,9 @@ def history : Handler := fun j => do
   let groups ← match j.getObjVal? "groups" with
     | .ok g => listOf (listOf nat) g
     | .error _ => pure ((List.range bodies.length).map fun i => [i])
+  let mo := match j.getObjVal? "merged_only" with
+    | .ok (.bool b) => b
+    | _ => false
   let encs := bodies.map encode
   let encJ := jList (fun e => match e with | .ok p => peJ p | .error e => raisedJ e) encs
   let ks := encs.filterMap fun e => match e with | .ok p => some p | .error _ => none
@@ -145,7 +152,7 @@ def history : Handler := fun j => do
   | g0 :: r =>
     match groupGraph ks g0 with
     | .error e => return Json.mkObj [("enc", encJ), ("kterm", kterm), ("bterm", bterm), ("steps", Json.arr #[raisedJ e])]
-    | .ok A0 => return Json.mkObj [("enc", encJ), ("kterm", kterm), ("bterm", bterm), ("steps", Json.arr (steps ks A0 r g0).toArray)]
+    | .ok A0 => return Json.mkObj [("enc", encJ), ("kterm", kterm), ("bterm", bterm), ("steps", Json.arr (steps ks mo A0 r g0).toArray)]
 
 /-- args: {"ops": [[name, [ty], ty]]} -> {"raised"} | {"pe", "true", "terms": [term|null per switch value]} -/
 def fromOps : Handler := fun j => do
